@@ -53,7 +53,8 @@ def classify(doc):
 
 def poison(rng, doc):
     """plants exactly one inexpressible thing; returns its label"""
-    kind = rng.choice(['list', 'table', 'nlsemi', 'char-value', 'char-name', 'char-code', 'del-value', 'vt-value'])
+    kind = rng.choice(['list', 'table', 'nlsemi', 'char-value', 'char-name', 'char-code', 'del-value', 'vt-value',
+                       'char-loop-name', 'char-loop-name', 'char-frame-code', 'char-loop-value'])
     blk = rng.choice(doc)
     if kind == 'list':
         blk['entries'].append(('item', '_poison', ('list', (('char', 'a', False),))))
@@ -67,6 +68,16 @@ def poison(rng, doc):
         blk['entries'].append(('item', '_pois\u00f6n', ('char', 'v', False)))
     elif kind == 'char-code':
         doc.append({'code': 'bl\u00f6ck', 'entries': [('item', '_a', ('char', 'v', False))]})
+    elif kind == 'char-loop-name':
+        # the offending name at every position of a loop header
+        n = rng.randint(2, 4)
+        names = ['_lp%d_%d' % (len(blk['entries']), j) for j in range(n)]
+        names[rng.randrange(n)] = '_lp%d_\u00e9tiquette' % len(blk['entries'])
+        blk['entries'].append(('loop', names, [[('char', 'v%d%d' % (r, c), True) for c in range(n)] for r in range(rng.randint(1, 3))]))
+    elif kind == 'char-frame-code':
+        blk['entries'].append(('frame', {'code': 'fr\u00e4me', 'entries': [('item', '_a', ('char', 'v', False))]}))
+    elif kind == 'char-loop-value':
+        blk['entries'].append(('loop', ['_lq1', '_lq2'], [[('char', 'ok', True), ('char', 'na\u00efve', True)], [('char', 'x', True), ('char', 'y', True)]]))
     elif kind == 'del-value':
         blk['entries'].append(('item', '_poison', ('char', 'a\x7fb', True)))
     else:
